@@ -14,6 +14,8 @@ def _c14_case(c):
         return {"kind": "E", "case": _json.loads(bytes.fromhex(p[-1][1:]).decode("utf-8"))}
     if p[0] == "K":
         return {"kind": "M", "case": {"caps": [ch == "1" for ch in p[1]]}}
+    if p[0] == "P":
+        return {"kind": "P", "ops": " ".join(p[1:])}
     return {"raw": c}
 
 
@@ -58,6 +60,9 @@ def _vm_vis(evs):
             out.append("VG %s%%nat" % e[1:])
         else:
             t, f = e[1:].split(":")
+            if e[0] in "UD" and f == "2":
+                out.append("V%s %s%%nat" % ("L" if e[0] == "U" else "K", t))
+                continue
             out.append("V%s %s%%nat %s" % (e[0], t, "true" if f == "1" else "false"))
     return _vm_lst(out, "vis")
 
@@ -99,6 +104,11 @@ def _vm_goal(case, out):
         if p[0] == "D":
             kind = {"artifact": "KArtifact", "index": "KIndex"}.get(p[1], "KImage")
             return "referrer_art %s %s %s = %s" % (kind, p[2], p[3], o[1])
+        if p[0] == "P":
+            if "X" in o[1]:
+                return None
+            return "pool_trace None %s = %s" % (_vm_lst(["true" if x[0] == "g" else "false" for x in p[1:]], "bool"),
+                                                _vm_lst(["true" if ch == "N" else "false" for ch in o[1]], "bool"))
         if p[0] == "M":
             n = int(p[1])
             changes = _vm_lst(["Add (mkDesc %d 0 0)" % (t + 1) for t in range(n)], "change")
@@ -110,7 +120,7 @@ def _vm_goal(case, out):
             return ("match %s with Some (rs, _, log, _) => (rs, batches log) = (%s, %s) | None => False end"
                     % (call, _vm_results(o[4]), _vm_lst(b, "(nat * list nat)")))
         if p[0] == "X":
-            if "*" in out or out.startswith("UNJUDGED"):
+            if "*" in out:
                 return None
             r0 = "None" if p[2] == "none" else "(Some %s)" % _vm_lst([] if p[2] == "-" else ["(mkDesc %s 0 0)" % k for k in p[2].split(",")], "desc")
             call = "vis_summary %s %s %s %s" % ("true" if p[1][0] == "1" else "false", r0, _vm_changes(p[3]), _vm_vis(p[4:]))
@@ -119,7 +129,7 @@ def _vm_goal(case, out):
             # ACC R <r> I <i> U <u>
             idx = "None" if o[4] == "none" else "(Some %s)" % _vm_ns(o[4])
             us = [] if o[6] == "-" else [_vm_ns("" if x == "e" else x) for x in o[6].split(";")]
-            return ("match %s with Some (rs, idx, log, _) => (rs, idx, puts log) = (%s, %s, %s) | None => False end"
+            return ("match %s with Some (rs, idx, log, _) => (map (option_map seen) rs, idx, puts log) = (%s, %s, %s) | None => False end"
                     % (call, _vm_results(o[2]), idx, _vm_lst(us, "(list N)")))
     except Exception:
         return None
@@ -127,7 +137,7 @@ def _vm_goal(case, out):
 
 
 def _c14_vm_sample(d, tier, coq, build, want=300):
-    import os, subprocess, collections
+    import os, re, subprocess, collections
     if tier != "thorough":
         return []
     outs = {}
@@ -135,18 +145,24 @@ def _c14_vm_sample(d, tier, coq, build, want=300):
         for l in f:
             i, _, o = l.rstrip("\n").partition(" ")
             outs[i] = o
-    quota = {"A": 90, "R": 20, "F": 20, "T": 20, "K": 10, "D": 20, "M": 70, "X": 70, "L": 20}
+    quota = {"A": 90, "R": 20, "F": 20, "T": 20, "K": 10, "D": 20, "M": 70, "X": 70, "L": 20, "XL": 25, "P": 15}
+
+    def kind(c):
+        k = c.split(" ", 1)[0]
+        # XL: projected end-to-end lines with a LOST RESPONSE of the index PUT (EPutLost)
+        return "XL" if k == "X" and re.search(r" [UD]\d+:2( |$)", c) else k
+
     total = collections.Counter()
     with open(os.path.join(d, "cases.txt")) as f:
         for l in f:
-            c = l.split(" ", 2)
-            if len(c) > 1:
-                total[c[1]] += 1
+            c = l.rstrip("\n").partition(" ")[2]
+            if c:
+                total[kind(c)] += 1
     got, stride, goals = collections.Counter(), collections.Counter(), []
     with open(os.path.join(d, "cases.txt")) as f:
         for l in f:
             i, _, c = l.rstrip("\n").partition(" ")
-            k = c.split(" ", 1)[0]
+            k = kind(c)
             if k not in quota or got[k] >= quota[k] or i not in outs:
                 continue
             stride[k] += 1
@@ -177,8 +193,8 @@ def _c14_vm_sample(d, tier, coq, build, want=300):
 
 CONFIG = {
     "properties_file": "Properties/C14.v",
-    "proof_files": ["Base/Prelude.v", "Proofs/Referrers.v", "Proofs/Merge.v", "Proofs/MergeLin.v", "Proofs/MergeThm.v", "Proofs/Delivery.v"],
-    "model_files": ["Generated/GC14.v", "Model/Referrers.v", "Model/Merge.v", "Model/Delivery.v"],
+    "proof_files": ["Base/Prelude.v", "Proofs/Referrers.v", "Proofs/MergeBase.v", "Proofs/MergeSA.v", "Proofs/MergeSB.v", "Proofs/MergeSC.v", "Proofs/Merge.v", "Proofs/MergeLin.v", "Proofs/MergeThm.v", "Proofs/Delivery.v", "Proofs/Live.v", "Proofs/MergeFine.v", "Proofs/MergeFineGet.v", "Proofs/MergeFineMain.v", "Proofs/MergeFineAssign.v", "Proofs/MergeFineWake.v", "Proofs/MergeFineRecv.v", "Proofs/MergeFineNotify.v", "Proofs/MergeFineSwap.v", "Proofs/MergeFine2.v", "Proofs/MergeFine3.v", "Proofs/MergeFineProg.v"],
+    "model_files": ["Generated/GC14.v", "Model/Referrers.v", "Model/Merge.v", "Model/Delivery.v", "Model/Live.v", "Model/MergeFine.v"],
     "extract": "XC14.v",
     "ml_main": "c14_main.ml",
     "harness": "c14",
@@ -189,16 +205,16 @@ CONFIG = {
     "timeout_thorough": 3000,
     "assumptions": [
         "a descriptor is abstracted to its key (descriptor.FromOCI: media type x digest x size, interned injectively by the harness, 0 = all-zero), its artifact type and the rest of its payload; changes name non-zero descriptors (pushWithIndexing/deleteWithIndexing only index the three manifest media types) - hypothesis changes_nonempty / guard of EGet",
-        "Merge: in the transition system the delivery of a batch result to its members is one step EComplete; Model/Delivery.v models the real hand-over (close of the buffered-1 status channel / len(items)-1 blocking sends, one receive per waiter, late receivers after the swap) and C14_delivery_refines_complete proves that every maximal channel-level run has exactly the effect of EComplete; what is NOT proved is the full simulation of the interleaved system (channel steps of one batch interleaved with lock regions of the next batch): it rests on the old status channel being unreachable from the Merge object after the swap; the real channel mechanics are exercised by the M runs under testing/synctest, all schedules of up to 3 (thorough: 5) callers enumerated",
+        "Merge: Model/Merge.v hands a batch result to its members in one step (EComplete). Model/MergeFine.v is the same system at CHANNEL granularity (buffered-1 status channels per generation, main status in the buffer, close / blocking sends in complete(), late receivers, the swap as its own lock region); C14_fine_simulated proves that every run of the channel-level system is simulated by a run of Model/Merge.v, so every theorem about reachable states of Model/Merge.v transfers (C14_fine_no_lost_update, C14_fine_structure); both models replay every M / X schedule and must agree with each other and with the implementation; Model/Delivery.v (isolated delivery step: exactly once, boundedness) is kept. Pool.Get / release = the reference count pool_get / pool_put of the model (C14_pool_is_refcount, C14_pool_shared), tied by the P lines: identity of the pooled Merge per Get in lock order, sequential sequences and one FORCED race (a release waiting for the pool lock while a Get of the same key overtakes it; forced through Pool.New of another key, goroutine states from runtime.Stack). Not modelled: a caller is identified with one call; goroutine scheduling inside a lock region",
         "one referrers tag = one copy of the transition system; different tags touch disjoint Pool keys and Merge objects (C14_tags_independent is about the product, by construction). Index manifests are content-addressed: an index without a single referrer (the empty index, zero descriptors only) can be ONE manifest under several tags; its deletion by another tag's update is the environment event EExtDrop of the per-tag system (the tag is dropped; as a set nothing changes) or a 404 on this tag's own DELETE (EDel fail); both are generated (pre-existing indexes are byte-identical across subjects unless DistinctPre) and replayed by the model",
-        "registry: the theorems assume that a failed index exchange has no effect (EPrepare/EPut/EDel fail leave the registry cell unchanged); the harness also injects a LOST RESPONSE of the index PUT (takes effect, answered 500): then the callers get a plain error although the index changed - allowed by the property (calls that returned another error may or may not be included), judged by the oracle only (manifests of failed calls are uncertain), the projected model line is UNJUDGED; DELETE of a manifest by digest also drops tags pointing at it",
+        "registry: a failed index exchange (EPrepare/EPut/EDel fail) leaves the registry cell unchanged; a LOST RESPONSE of the index PUT or of the index DELETE (takes effect, answered 500) is a model event of its own (EPutLost / EDelLost; ghost result RLost, seen by the callers as the plain error; a lost DELETE after a PUT yields the index-delete error): C14_lost_response (nil / index-delete error => took effect; plain error => took effect iff the response was lost) and C14_plain_error_no_effect (truthful registry: plain error <=> no effect); the projected X / Y lines of runs with lost responses are judged (results, index, PUT bodies, dangling count: the old index stays); lost responses of the manifest exchanges are not generated; DELETE of a manifest by digest also drops tags pointing at it",
         "Go runtime scheduling / memory model, sync.Mutex, channels, sync/atomic CompareAndSwap, encoding/json and net/http are modelled, not verified; interleavings of the visible events (lock regions, HTTP exchanges) are quantified over",
         "pingReferrers / Referrers() fallback / checkOCISubjectHeader: only SetReferrersCapability's compare-and-swap is modelled (C14_capability_monotone is about that CAS); 'the detected capability never flips' for the detection paths is sampled end-to-end after every exchange, starting from Unknown, with pings never concurrent (one exchange released at a time) - oracle only",
-        "OUT OF SCOPE (not in the quantifier, not generated): pre-existing index entries that describe a live referrer with another size / media type (same digest: a different key for applyReferrerChanges, so the referrer is listed twice by digest after a push), entries with a wrong artifact type / annotations (an existing key keeps its OLD payload on Add), stale entries of deleted manifests and entries of other subjects: these are indexes no conforming client produces; the quantifier names duplicates and empty entries",
-        "KNOWN FINDING same-manifest-race: 'exactly the live manifests' is not a theorem. The model has a manifest layer (MPut/MDel around the index calls) only to exhibit C14_listing_is_live_refuted; for operations on DIFFERENT manifests (or non-overlapping operations on one manifest) the clause is judged by the oracle (registry store vs Referrers()), not proved",
+        "OUT OF SCOPE (not in the quantifier, not generated): pre-existing index entries that describe a live referrer with another size / media type (same digest: a different key for applyReferrerChanges, so the referrer is listed twice by digest after a push), entries with a wrong artifact type / annotations (an existing key keeps its OLD payload on Add), stale entries of deleted manifests and entries of other subjects: these are indexes no conforming client produces; the quantifier names duplicates and empty entries; subjects with a sha512 digest (buildReferrersTag yields a 135-character tag, the reference grammar allows 128: every tag-schema path fails with an invalid-reference error before any request is sent - a loud, deterministic failure of the call, no index is touched, nothing is lost; a conformance question of the tag construction (distribution-spec: truncate), not of C14's statement; reported by b-C20, subjects here are sha256)",
+        "KNOWN FINDING same-manifest-race (C14_listing_is_live_refuted): Push(A) || Delete(A). For every interleaving in which operations on the SAME manifest do not overlap (Model/Live.v: manifest PUT before / manifest DELETE after the index update, any number of concurrent operations on different manifests, failures of the index exchanges, failed manifest DELETE) 'listing = exactly the live manifests' IS a theorem: C14_listing_is_live (a manifest no operation is working on and no failed operation has touched is listed iff it is in the registry); tied by the Y lines (live set predicted by the model vs registry store)",
     ],
     "level_text": "Coq theorems: applyReferrerChanges (position map, tombstones, hint; transcribed loop by loop) = set semantics over the de-duplicated non-empty old list, NoDup, order of survivors, errNoReferrerUpdate iff nothing changes; for the Merge/Pool/updateReferrersIndex transition system, over every trace (any number of callers, every interleaving of lock regions and HTTP exchanges, any pre-existing index, injected failures of index GET/PUT/DELETE): at most one caller between prepare and complete, Pool entry dropped only when unreferenced, batches linearise (the calls that returned nil or a referrers-index-delete error - exactly those - took effect once, in order, and the index is the fold of their changes), index-delete error only after the update took effect, superseded indexes deleted unless skipped/failed, capability state never flips, tags independent; tied to the code by differential runs of the extracted models (apply/removeEmpty/filter; real Merge+Pool under synctest; end-to-end push/delete through one Repository against a fake tag-schema registry with gate-controlled exchange order, projected per tag onto the transition system) and an independent oracle (live set, Referrers-API registry, dangling indexes, capability samples)",
-    "level_note": "clause by clause: listing = fold of the accepted changes, each key once, no empty entry, filter (C14_listing + C14_no_lost_update: theorems over every trace); 'exactly the LIVE manifests' = oracle only + known finding same-manifest-race with refuted witness; artifact type / annotations: C14_entries_origin + C14_equals_api (type rule only), rest oracle (decoration, api-mismatch vs the fake's own Referrers API); superseded indexes: C14_gc / C14_gc_clean / C14_gc_count + per-tag dangling count compared with the implementation; capability: CAS theorem + e2e samples; lock-region interleavings of Merge/Pool beyond the exchange-granularity schedules: free-running stress stream (oracle only) and the unproved simulation gap of Delivery; Merge's channel hand-off is one model step (see assumptions); referrers listing by the Referrers API profile is the fake registry's own implementation of the distribution spec (C14_equals_api is about the artifact-type rule); manifests whose push/delete returned a plain error are 'uncertain' for the oracle (may or may not be listed), as the property allows; three defects of oras-go found by this check were repaired in fix: commits (known_findings.d/C14.json)",
+    "level_note": "clause by clause: listing = fold of the accepted changes, each key once, no empty entry, filter (C14_listing + C14_no_lost_update: theorems over every trace); 'exactly the LIVE manifests' = C14_listing_is_live for every interleaving without same-manifest overlap (+ Y correspondence) and known finding same-manifest-race with refuted witness for the overlap; artifact type / annotations: C14_entries_origin + C14_equals_api (type rule only), rest oracle (decoration, api-mismatch vs the fake's own Referrers API); superseded indexes: C14_gc / C14_gc_clean / C14_gc_count + per-tag dangling count compared with the implementation; capability: CAS theorem + C14_capability_all_paths (translator: the field has no other writer) + e2e samples; channel-level interleavings: safety proved (C14_fine_simulated), deadlock freedom and bounded completion proved at channel granularity (C14_fine_no_deadlock with the counting invariant InvP, C14_fine_bounded_completion) and exercised by the free-running stress stream; Merge's channel hand-off is one model step (see assumptions); referrers listing by the Referrers API profile is the fake registry's own implementation of the distribution spec (C14_equals_api is about the artifact-type rule); manifests whose push/delete returned a plain error are 'uncertain' for the oracle (may or may not be listed), as the property allows; three defects of oras-go found by this check were repaired in fix: commits (known_findings.d/C14.json)",
     "technique": "machine-checked proof in Coq (invariants over all traces of a transition system; refinement of the position-map algorithm to set semantics) + extracted-model/implementation correspondence under testing/synctest + independent oracle",
     "explanation": "theorems over all interleavings/histories about the model of applyReferrerChanges and of the Merge/Pool/updateReferrersIndex protocol; the extracted model replays the schedules observed on the real code (random + all schedules of small cases) and must predict batches, per-call results and the final index; the oracle compares Referrers()/Predecessors() after quiescence with the generator's live set and with a Referrers-API registry",
 }
